@@ -566,3 +566,58 @@ class Suite:
                     if len(table) != len(set(table)):
                         run.oracle_fail("published name list has duplicates: %s" % table, desc)
         return len(ops)
+
+
+    # ------------------------------------------------------------------ query response tables (C16)
+    def check_schemas(self):
+        run = self.run
+        ops = [{"prog": pi, "op": "schemas"} for pi, p in enumerate(self.corpus.progs) if "__rejected" not in self.corpus.names[pi]]
+        obs = self.corpus.run(ops)
+        for op, o in zip(ops, obs):
+            pi = op["prog"]
+            p = self.corpus.progs[pi]
+            desc = {"prog": pi, "program": self.describe(p)}
+            union = {}
+            titles = []
+            for part, pidx, iface in self.parts(p):
+                run.count()
+                run.nontriv(("schemas", pi, part))
+                tab = o.get(part, {})
+                if not isinstance(tab, dict) or "Ok" not in tab:
+                    run.oracle_fail("response table of part %s cannot be produced: %s" % (part, json.dumps(tab)[:200]), desc)
+                    continue
+                tab = tab["Ok"]
+                declared = dict((n, sch) for n, sch in o.get(part + ".declared", []))
+                keys = set(k for k in tab.keys() if k != "__phantom")
+                ser = self.wire_names.get((pi, part, "query"), set())
+                qs = [m for m in self.methods_of(p, iface) if m.kind == "query"]
+                if len(ser) == len(qs) and keys != ser:
+                    run.oracle_fail("response table of part %s has the names %s; its queries are sent as %s" % (part, sorted(keys), sorted(ser)), desc)
+                for m in qs:
+                    wire = [k for k in tab if k.replace("_", "") == m.name.replace("_", "").lower()]
+                    if m.name in tab and m.name in declared and json.dumps(tab[m.name], sort_keys=True) != json.dumps(declared[m.name], sort_keys=True):
+                        run.oracle_fail("query `%s` is recorded with the schema of another type: %s vs the handler's %s" % (
+                            m.name, json.dumps(tab[m.name].get("title")), json.dumps(declared[m.name].get("title"))), desc)
+                for k, v in tab.items():
+                    if k != "__phantom":
+                        union[k] = v
+                titles.append((o.get(part + ".schema") or {}).get("title"))
+            w = o.get("wrapper", {})
+            if "Ok" not in w:
+                run.oracle_fail("the contract-level response table cannot be produced: %s" % json.dumps(w)[:200], desc)
+            else:
+                wt = dict((k, v) for k, v in w["Ok"].items() if k != "__phantom")
+                if json.dumps(wt, sort_keys=True) != json.dumps(union, sort_keys=True):
+                    run.oracle_fail("the contract-level response table is not the union of its parts' tables: %s vs %s" % (
+                        sorted(wt.keys()), sorted(union.keys())), desc)
+            ws = o.get("wrapper_schema", {})
+            any_of = ws.get("anyOf")
+            if not isinstance(any_of, list) or len(any_of) != len(self.parts(p)):
+                run.oracle_fail("the contract-level query schema is not an anyOf over its %d parts: %s" % (len(self.parts(p)), json.dumps(ws)[:200]), desc)
+            else:
+                refs = [x.get("$ref", "").split("/")[-1] for x in any_of]
+                if sorted(refs) != sorted(t for t in titles if t):
+                    # generic parts get a name with their arguments; compare as sets of referenced definitions otherwise
+                    if len(set(refs)) != len(refs):
+                        run.oracle_fail("the contract-level query schema lists a part twice: %s" % refs, desc)
+        return len(ops)
